@@ -285,6 +285,10 @@ class TypeEval:
                 for a in args:
                     out = L.add(out, a)
                 return out
+            if cn in ("np.reciprocal",) and len(args) == 1:
+                return L.scale(args[0], Fraction(-1, 1))
+            if cn in ("np.divide", "np.true_divide") and len(args) == 2:
+                return L.add(args[0], L.scale(args[1], Fraction(-1, 1)))
             if cn in ("np.sqrt", "sla.sqrtm"):
                 return L.scale(args[0], Fraction(1, 2)) if cn == "np.sqrt" else (L.zero if args[0] == L.zero else TOP)
             if cn in ("np.tanh", "np.sinh", "np.sin", "np.arctan", "np.arcsinh", "np.tan") and len(args) == 1:
@@ -323,7 +327,7 @@ class TypeEval:
             # method call on a typed object
             if isinstance(e.func, ast.Attribute):
                 base = self.ev(f, e.func.value, env) if not (isinstance(e.func.value, ast.Name) and e.func.value.id in ("np", "sla", "nla")) else L.zero
-                if e.func.attr in ("sum", "copy", "diagonal", "reshape", "ravel", "squeeze", "transpose"):
+                if e.func.attr in ("sum", "copy", "diagonal", "reshape", "ravel", "squeeze", "transpose", "astype", "view", "flatten", "conj", "mean"):
                     return base
                 if is_self_attr(e.func):
                     g = self.k.resolve(e.func.attr)
